@@ -138,7 +138,7 @@ class OptimiserAnchors:
         # undo calls
         self.reset_calls = [(bi, t) for bi, t in b.calls() if is_trait_call(t, 'Basis', 'reset_value')]
         # roles of the decision's arguments by the callee's parameter names
-        self.decision_body = facts.body(self.decision['func'].get('resolved') or self.decision['func'].get('fn'))
+        self.decision_body = facts.body_of_fnconst(self.decision['func'])
         self.dec_args = {}
         if self.decision_body is not None:
             for i in range(1, self.decision_body.arg_count + 1):
